@@ -304,63 +304,78 @@ def rule_cancel(ctx, lc):
     flushes = [c for c in walk_own(h) if isinstance(c, ast.Call) and ctx.res.resolve_ref(c.func, f) is not None
                and ctx.res.resolve_ref(c.func, f).key == lc.lock_func.key and c.args and isinstance(c.args[0], ast.Call)
                and ctx.res.resolve_ref(c.args[0].func, f) is not None and ctx.res.resolve_ref(c.args[0].func, f).key == fis.key]
-    rets = [s for s in walk_own(h) if isinstance(s, ast.Return)]
-    shut = [s for s in walk_own(h) if isinstance(s, ast.If) and 'shutdown_event.is_set()' in norm(s.test)]
-    ok = len(flushes) == 1 and len(shut) == 1 and bool(rets) and isinstance(getattr(flushes[0], '_parent', None), ast.Await)
-    why = 'handler does not await run_with_lock(flush_if_safe()) under `if shutdown_event.is_set()`'
-    wit = None
+    # decided per path through the handler (nested `if shutdown`, a guard clause for the other case, an extracted helper
+    # the normaliser inlined: all the same): shutdown => the safe flush is awaited and then the handler returns;
+    # otherwise the handler does not return
+    from .. import paths as P
+    ok = len(flushes) == 1 and isinstance(getattr(flushes[0], '_parent', None), ast.Await)
+    why = 'handler does not await run_with_lock(flush_if_safe())'
+    before = []
     if ok:
-        fl = cfg.node(q.stmt(flushes[0]))
-        branch_entry = [m for m in cfg.g.successors(cfg.node(shut[0])) if 'true' in cfg.g[cfg.node(shut[0])][m]['kinds']]
-        # every path from the shutdown branch to a return passes the flush
-        for r in rets:
-            p = pr.path_avoiding(cfg, branch_entry, [cfg.node(r)], {fl})
-            if p is not None and q.in_body(r, shut[0].body):
-                ok, why, wit = False, 'the handler can return on shutdown without the safe flush', cfg.describe_path(p)
-        if not any(q.in_body(r, shut[0].body) for r in rets):
-            ok, why = False, 'the shutdown branch does not return (processing would continue after shutdown)'
-        if not norm(shut[0].test) == 'shutdown_event.is_set()':
-            ok, why = False, f'shutdown test is not plainly shutdown_event.is_set(): {norm(shut[0].test)}'
+        fl_stmt = q.stmt(flushes[0])
+        hp = P.paths(h.body)
+        n_shut = 0
+        for pth in hp:
+            sd = P.truthy(pth, 'shutdown_event.is_set()')
+            evs = [st_ for st_, _e in pth.events]
+            if sd is None:
+                ok, why = False, f'a path through the handler is not decided by shutdown_event.is_set(): {pth.cond_texts()[:3]}'
+                break
+            if sd:
+                n_shut += 1
+                if pth.exit == 'raise' and fl_stmt not in evs:
+                    ok, why = False, 'the handler can leave by an exception on shutdown without the safe flush'
+                elif pth.exit != 'return':
+                    ok, why = False, 'the shutdown branch does not return (processing would continue after shutdown)'
+                elif fl_stmt not in evs:
+                    ok, why = False, 'the handler can return on shutdown without the safe flush'
+                else:
+                    before += [st_ for st_ in evs[:evs.index(fl_stmt)] if st_ not in before]
+                if len([c for c in pth.conds if isinstance(c[0], ast.expr)]) != 1:
+                    ok, why = False, f'the safe flush depends on more than the shutdown request: {pth.cond_texts()}'
+            elif pth.exit == 'return':
+                ok, why = False, 'the handler returns although no shutdown was requested'
+        if ok and not n_shut:
+            ok, why = False, 'no shutdown path in the handler'
     ctx.check(ok, 'C06.CANCEL', ctx.key(f, h, 'safe flush on shutdown'),
               'on shutdown the handler awaits run_with_lock(flush_if_safe()) on every path before returning',
-              why, witness=wit, loc=ctx.loc(f, h))
+              why, loc=ctx.loc(f, h))
     n = 2
     # no unshielded suspension between handler entry and the safe flush (each one is a cancellation
     # instant at which the finished blocks would be dropped)
-    if flushes and shut:
-        fl_stmt = q.stmt(flushes[0])
-        before = [s for s in shut[0].body if s.lineno < fl_stmt.lineno]
+    if flushes:
         risky = []
         for s in before:
-            for aw in [x for x in walk_own(s) if isinstance(x, ast.Await)]:
+            for aw in [x for x in walk_own(s) if isinstance(x, ast.Await)] + ([s.value] if isinstance(s, ast.Expr) and isinstance(s.value, ast.Await) else []):
                 why_s = sus.may_suspend_expr(aw.value, f)
-                if why_s:
+                if why_s and f'{ctx.loc(f, aw)} {norm(aw)}: {why_s}' not in risky:
                     risky.append(f'{ctx.loc(f, aw)} {norm(aw)}: {why_s}')
         ctx.check(not risky, 'C06.CANCEL', ctx.key(f, h, 'no suspension before the safe flush'),
                   'nothing ahead of the safe flush in the handler can suspend (and so be cancelled or re-raise)',
                   'a suspension point ahead of the safe flush can raise CancelledError out of the handler and skip the flush: '
                   + '; '.join(risky), loc=ctx.loc(f, h))
         n += 1
-    # flush_if_safe: flush(True) only under self.ok
-    fcfg = ctx.cfg(fis)
+    # flush_if_safe: every path with self.ok true awaits flush(True), no path with self.ok false flushes
     fl = [c for c in q.own_calls(fis) if ctx.res.resolve_ref(c.func, fis) is not None and ctx.res.resolve_ref(c.func, fis).name == 'flush']
     good = len(fl) == 1 and len(fl[0].args) == 1 and norm(fl[0].args[0]) == 'True' and isinstance(getattr(fl[0], '_parent', None), ast.Await)
+    skipped = False
     if good:
-        conds = pr.control_conditions(q.stmt(fl[0]), fis.node)
-        good = any(b and ctx.res.canon(t, fis) == 'self.ok' for t, b, _p in conds) and len(conds) == 1
+        fls = q.stmt(fl[0])
+        for pth in P.paths(fis.node.body):
+            okv = P.truthy(pth, 'self.ok')
+            has = any(st_ is fls for st_, _e in pth.events)
+            if okv is None or len([c for c in pth.conds if isinstance(c[0], ast.expr)]) != 1:
+                good = False
+            elif okv and not has and pth.exit != 'raise':
+                skipped = True
+            elif not okv and has:
+                good = False
     ctx.check(good, 'C06.CANCEL', ctx.key(fis, None, 'flush(True) iff ok'),
               'flush_if_safe awaits flush(True) exactly under `if self.ok`',
               'flush_if_safe does not flush everything exactly when self.ok holds', loc=ctx.loc(fis, fis.node))
-    # with ok true the flush is reached on every path
-    if len(fl) == 1:
-        ifs = [s for s in fis.node.body if isinstance(s, ast.If)]
-        if ifs:
-            entry = [m for m in fcfg.g.successors(fcfg.node(ifs[0])) if 'true' in fcfg.g[fcfg.node(ifs[0])][m]['kinds']]
-            p = pr.path_avoiding(fcfg, entry, [fcfg.exit], {fcfg.node(q.stmt(fl[0]))})
-            ctx.check(p is None, 'C06.CANCEL', ctx.key(fis, None, 'flush on every ok path'),
-                      'when ok holds every path flushes', 'an ok path skips the flush',
-                      witness=fcfg.describe_path(p) if p else None, loc=ctx.loc(fis, fis.node))
-            n += 1
+    ctx.check(not skipped, 'C06.CANCEL', ctx.key(fis, None, 'flush on every ok path'),
+              'when ok holds every path flushes', 'an ok path skips the flush', loc=ctx.loc(fis, fis.node))
+    n += 1
     return n + 1
 
 
